@@ -89,7 +89,7 @@ func (S) Info() scen.Info {
 			"reference model":      "abstract tree with expanded links + reference updater (replace / insert / delete / append / create-parents / transparent link crossing)",
 		},
 		QuickUnits: 50000, ThoroughUnits: 3000000, QuickSecs: 240, ThoroughSecs: 1200,
-		ProbeKeys: []string{"probe.walk_transform_across_links", "probe.chooser_map_prototype", "probe.below_link", "probe.below_two_links", "probe.delete_map", "probe.insert_key", "probe.append", "probe.create_parents", "probe.identity", "probe.expected_error", "probe.typed_transform", "probe.replacement_from_other_implementation", "probe.selector_reused", "probe.float_zero_sign_flipped_below_link", "probe.walk_transform", "probe.walk_transform_selector_matched", "probe.int_backed_segment", "probe.fault_made_transform_fail", "probe.fault_survived", "probe.history_ge_3"},
+		ProbeKeys: []string{"probe.walk_transform_across_links", "probe.walk_transform_loader_skips", "probe.walk_transform_visit_once", "probe.chooser_map_prototype", "probe.below_link", "probe.below_two_links", "probe.delete_map", "probe.insert_key", "probe.append", "probe.create_parents", "probe.identity", "probe.expected_error", "probe.typed_transform", "probe.replacement_from_other_implementation", "probe.selector_reused", "probe.float_zero_sign_flipped_below_link", "probe.walk_transform", "probe.walk_transform_selector_matched", "probe.int_backed_segment", "probe.fault_made_transform_fail", "probe.fault_survived", "probe.history_ge_3"},
 		EventsKey: "events",
 	}
 }
@@ -108,7 +108,8 @@ type world struct {
 	raw        func(l datamodel.Link) ([]byte, bool)
 	cfg        *traversal.Config
 	faulty     bool
-	faultTasks map[int]bool // tasks currently inside a transform (faults hit only their storage calls, never the harness's instrument loads)
+	skipTasks  map[int]map[string]bool // per task: links its loader declines (traversal.SkipMe) during the current walking transform
+	faultTasks map[int]bool            // tasks currently inside a transform (faults hit only their storage calls, never the harness's instrument loads)
 }
 
 func (w *world) expand(n datamodel.Node, depth int) (*model.V, error) {
@@ -207,14 +208,21 @@ func flatten(v *model.V) *model.V {
 // string naming its path; a loaded link is replaced by its marked content (links are transparent in
 // paths). A block whose root IS a link is a scalar block to the walk (links are only crossed where
 // they sit inside a map or list), so what lies behind such a redirect stays as it is.
-func pathMark(v *model.V, pre []string) *model.V {
+func pathMark(v *model.V, pre []string, skip, seen map[string]bool) *model.V {
 	switch v.K {
 	case model.Link:
 		if len(v.Vals) == 1 {
-			if v.Vals[0].K == model.Link {
+			if seen != nil {
+				// visit-once: a link met before (walked, skipped or a redirect) is not crossed again
+				if seen[v.S] {
+					return flatten(v.Vals[0])
+				}
+				seen[v.S] = true
+			}
+			if v.Vals[0].K == model.Link || skip[v.S] {
 				return flatten(v.Vals[0])
 			}
-			return pathMark(v.Vals[0], pre)
+			return pathMark(v.Vals[0], pre, skip, seen)
 		}
 		return v
 	case model.Int:
@@ -227,7 +235,7 @@ func pathMark(v *model.V, pre []string) *model.V {
 			if v.K == model.Map {
 				seg = v.Keys[i]
 			}
-			c.Vals[i] = pathMark(x, append(append([]string(nil), pre...), seg))
+			c.Vals[i] = pathMark(x, append(append([]string(nil), pre...), seg), skip, seen)
 		}
 		return &c
 	}
@@ -498,7 +506,7 @@ func (S) RunTape(t *sim.Tape, st *sim.Stats, keepLog bool) *sim.Outcome {
 	s.Log.Keep = keepLog
 	s.MaxSteps = 400000
 	s.MaxQ = []int{0, 3, 12}[t.Choice(3, "cfg.maxq")]
-	w := &world{t: t, s: s, o: o, st: st, faultTasks: map[int]bool{}}
+	w := &world{t: t, s: s, o: o, st: st, faultTasks: map[int]bool{}, skipTasks: map[int]map[string]bool{}}
 	w.lsys = cidlink.DefaultLinkSystem()
 	if t.Bool("cfg.cidmem") {
 		cm := &cidlink.Memory{}
@@ -513,8 +521,12 @@ func (S) RunTape(t *sim.Tape, st *sim.Stats, keepLog bool) *sim.Outcome {
 	w.seam = &simstore.Seam{S: s, T: t}
 	w.seam.Wrap(&w.lsys)
 	w.faulty = t.Pct(25, "cfg.faulty")
-	w.seam.NextRead = func(datamodel.Link) *simstore.ReadFault {
+	w.seam.NextRead = func(l datamodel.Link) *simstore.ReadFault {
 		f := &simstore.ReadFault{Err2At: -1, Chunk: []int{0, 0, 5}[t.Choice(3, "chunk")]}
+		if w.skipTasks[s.Cur()][l.Binary()] {
+			f.Kind, f.SkipErr = "skip", traversal.SkipMe{}
+			return f
+		}
 		if w.faultTasks[s.Cur()] && t.Pct(12, "fault.read") {
 			f.Kind = []string{"readerr", "openerr", "skip"}[t.Choice(3, "fault.read.kind")]
 			f.SkipErr = traversal.SkipMe{} // a loader that declines a block: for a transform that needs it, that is a failure
@@ -897,11 +909,43 @@ func (S) RunTape(t *sim.Tape, st *sim.Stats, keepLog bool) *sim.Outcome {
 					// Whether the rewritten blocks are stored and re-linked is finding F5 and not judged here: the
 					// result and the reference are compared with every loaded link replaced by its content.
 					desc = "walk-transform-across-links"
-					want = pathMark(before, nil)
+					// in a third of the cases the loader declines one or two of the links (SkipMe): those
+					// links stay what they are, and nothing behind them is transformed
+					skip := map[string]bool{}
+					if t.Pct(35, "x.wt.skip") {
+						var all []string
+						var collect func(v *model.V)
+						collect = func(v *model.V) {
+							if v.K == model.Link {
+								all = append(all, v.S)
+							}
+							for _, x := range v.Vals {
+								collect(x)
+							}
+						}
+						collect(before)
+						for i, n := 0, 1+t.Choice(2, "x.wt.nskip"); i < n && len(all) > 0; i++ {
+							skip[all[t.Choice(len(all), "x.wt.skiplink")]] = true
+						}
+						desc = fmt.Sprintf("walk-transform-across-links(loader skips %d link(s))", len(skip))
+						st.Inc("probe.walk_transform_loader_skips")
+					}
+					// in a third of the cases links are visited only once: a link met again stays what it is
+					wcfg := w.cfg
+					var seen map[string]bool
+					if t.Pct(30, "x.wt.once") {
+						cc := *w.cfg
+						cc.LinkVisitOnlyOnce = true
+						wcfg, seen = &cc, map[string]bool{}
+						desc += "(LinkVisitOnlyOnce)"
+						st.Inc("probe.walk_transform_visit_once")
+					}
+					want = pathMark(before, nil, skip, seen)
+					w.skipTasks[c] = skip
 					ssb := builder.NewSelectorSpecBuilder(basicnode.Prototype.Any)
 					sel, _ := ssb.ExploreRecursive(selector.RecursionLimitNone(), ssb.ExploreUnion(ssb.Matcher(), ssb.ExploreAll(ssb.ExploreRecursiveEdge()))).Selector()
 					pan = safe(func() {
-						res, err = traversal.Progress{Cfg: w.cfg}.WalkTransforming(cl.root, sel, func(p traversal.Progress, n datamodel.Node) (datamodel.Node, error) {
+						res, err = traversal.Progress{Cfg: wcfg}.WalkTransforming(cl.root, sel, func(p traversal.Progress, n datamodel.Node) (datamodel.Node, error) {
 							s.Yield("callback")
 							s.Log.Add(fmt.Sprintf("CB c%d %q %v", c, p.Path.String(), n.Kind()))
 							if n.Kind() == datamodel.Kind_Int {
@@ -1000,6 +1044,7 @@ func (S) RunTape(t *sim.Tape, st *sim.Stats, keepLog bool) *sim.Outcome {
 					}
 				}
 				w.faultTasks[c] = false
+				w.skipTasks[c] = nil
 				s.Log.Add(fmt.Sprintf("XFORM c%d %s -> err=%v panic=%q", c, desc, err != nil, pan))
 				sig := kindNames[kind]
 				if crossed > 0 {
